@@ -156,6 +156,12 @@ def call_list(seed):
                  ("DE:88", "0012525259"), ("DE:88", "0090013000"), ("DE:88", "0012525259"), ("DE:88", "0099913003"),
                  ("DE:21", "0000000000"), ("DE:13", "0532013000"), ("DE:68", "8889654328")):
         calls.append(["algo", m, a.zfill(10)])
+    # the same account number under EVERY German method, back to back (a memo shared between method objects and keyed
+    # by digits / weights only hands one method's intermediate result to another: round 6, C07)
+    from schwifty.checksum import algorithms as _algos
+    for a in ("0568975319", "9999999999", "5060708090", "0000123456"):
+        for m in sorted(k for k in _algos if k.startswith("DE:")):
+            calls.append(["algo", m, a])
     for b in ("GENODEM1GLS", "GENODEM1GL!", "DEUTDEFF", "AAAAXX22", "1234DEWWXXX"):
         calls += [["bic", b, False], ["bic", b, True]]
     # near-miss siblings of accepted texts: one character replaced by a foreign one (non-ASCII digit / letter of the
